@@ -8,6 +8,12 @@ CHECKS = {
  "C20": ("exploration", "reference-model monitor (independent spec codec) over enumerated/stratified values",
          "Every generated value is pushed through the real Encode/Len/Decode and compared with an independent codec written from the CRAM spec tables; thorough enumerates all 2^32 int32 values, int64 is stratified over all nine length classes; decode totality over all first bytes x lengths 0..9; cram stream readers fed spec-built containers.",
          "Trusts oracle/tf8.go as a transcription of CRAM spec 2.3; LTF-8 domain (2^64) only sampled.", "3 C20"),
+ "C17": ("exploration", "interval-arithmetic reference monitor over enumerated and random chunk lists",
+         "Every provided merge strategy is applied to every begin-sorted chunk list of a small alphabet (complete enumeration up to length 3 quick / 5 thorough) and to random large lists; an independent interval-union oracle checks sortedness, coverage, the per-strategy clauses and idempotence.",
+         "Input lists are begin-sorted with Begin<=End as the property states; random lists are a sample.", "3 C17"),
+ "C16": ("exploration", "reference-model monitor: spec-transliterated and definition-based bin oracles, CIGAR arithmetic oracle",
+         "Library End/Len/Bin/Lengths/IsValid and the BAI/CSI bin functions (via verif re-exports) are run on generated records and intervals and compared with two independent formulations; thorough enumerates the BAI tile-pair space for BinFor and all intervals of five small CSI geometries.",
+         "OverlappingBinsFor is exhaustive only for spans <= 64 tiles (longer lists sampled); large CSI geometries sampled; B operation follows the library's documented table.", "3 C16"),
 }
 NOT_BUILT = "check not built yet in this session; see DESIGN.md section 3 for the planned monitor"
 
